@@ -52,7 +52,7 @@ HASHSEEDS = ["0", "1", "2", "12345"]
 
 
 def budget(tier):
-    return int(os.environ.get("VERIF_BUDGET", 0)) or {"quick": 56, "thorough": 600}[tier]
+    return int(os.environ.get("VERIF_BUDGET", 0)) or {"quick": 44, "thorough": 500}[tier]
 
 
 # ---------------------------------------------------------------- generation (pure, no pharmpy import)
@@ -1474,6 +1474,10 @@ def run_case(case, drv):
         h = safe_hash(m3, mon, "from_dict(to_dict(model))")
         if h is not None and h != h0:
             mon.append({"cls": "hash-changes-after-roundtrip", "what": "ModelHash(from_dict(to_dict(m))) != ModelHash(m) although the models are =="})
+    # ---- construction-order independence: content-equal objects built along different orders must be equal objects
+    #      with equal to_dict and equal keys
+    construction_order_checks(m, h0, rng, drv, k, mon, tags)
+
     # ---- one unit in the last place of one float leaf is a different model: the key must change
     ulps = []
     ps = list(m.parameters)
@@ -1554,7 +1558,7 @@ def run_case(case, drv):
     if spec["kind"] == "gen":
         # single-field perturbations must change the hash
         perts = perturbations(rng, spec)
-        for field, s2 in rng.sample(perts, min(6, len(perts))):
+        for field, s2 in rng.sample(perts, min(5, len(perts))):
             try:
                 m2, _ = build_model(s2)
             except Exception:
@@ -1603,6 +1607,168 @@ def run_case(case, drv):
                 else:
                     tags.append("order-variant-not-equal")
     return {"k": k, "mon": mon, "tags": tags, "nontrivial": nontrivial}
+
+
+def _names(ders):
+    return [[str(a) for a in d] for d in ders]
+
+
+def _canon_repaired(ders):
+    return sorted(tuple(sorted(d)) for d in ders)
+
+
+def _has_ties(ders):
+    firsts = [sorted(d)[0] for d in ders if d]
+    return len(firsts) != len(set(firsts))
+
+
+def _float_params(d):
+    """to_dict with init/lower/upper of every parameter spelled as float (1 -> 1.0)"""
+    d = copy.deepcopy(d)
+    for p in d["parameters"]["parameters"]:
+        for f in ("init", "lower", "upper"):
+            if isinstance(p[f], int) and not isinstance(p[f], bool):
+                p[f] = float(p[f])
+    return d
+
+
+def construction_order_checks(m, h0, rng, drv, k, mon, tags):
+    S = Expr.symbol
+    rvnames = list(m.random_variables.names)
+    # -- a seeded derivative request: 1-4 derivatives of order 1-3, arguments and list in seeded order
+    req = []
+    for _ in range(rng.randint(1, 4)):
+        d = rng.sample(rvnames, min(len(rvnames), rng.choice([1, 1, 2, 2, 3])))
+        if sorted(d) not in [sorted(x) for x in req]:
+            req.append(d)
+    inner = [rng.sample(d, len(d)) for d in req]
+    if inner == req and any(len(d) > 1 for d in req):
+        inner = [list(reversed(d)) for d in req]
+    outer = list(reversed(req)) if len(req) > 1 else req
+    both = list(reversed(inner))
+    ties = _has_ties(req)
+    tags.append("deriv-request:" + ("ties" if ties else "no-ties") + (":order>1" if any(len(d) > 1 for d in req) else ""))
+    sym = lambda ds: tuple(tuple(S(n) for n in d) for d in ds)
+    # K: the canonicalisation function itself, on these and on an input with an empty derivative
+    if drv is not None:
+        for ds in (req, inner, outer, both, req + [[]]):
+            try:
+                code = ["ok", _names(PM.EstimationStep._canonicalize_derivatives(sym(ds)))]
+            except IndexError:
+                code = ["err", "IndexError"]
+            except Exception as e:
+                code = ["err", type(e).__name__]
+            a = drv.ask(["canonderivs", ds])
+            if a != code:
+                k.append(f"_canonicalize_derivatives({ds}): model {a} code {code}")
+        tags.append("q:canonderivs")
+    # Mon: the same request in another argument / list order is the same step
+    try:
+        s0 = PM.EstimationStep.create("FOCE", derivatives=sym(req))
+        variants = [("arguments", PM.EstimationStep.create("FOCE", derivatives=sym(inner))),
+                    ("list", PM.EstimationStep.create("FOCE", derivatives=sym(outer))),
+                    ("both", PM.EstimationStep.create("FOCE", derivatives=sym(both)))]
+    except Exception as e:
+        mon.append({"cls": "create-raises", "what": f"EstimationStep.create(derivatives={req}) raised {type(e).__name__}: {e}"})
+        variants = []
+    for what, s1 in variants:
+        if s1 == s0 and dumps(s1.to_dict()) == dumps(s0.to_dict()):
+            continue
+        args_differ = [tuple(sorted(d)) for d in _names(s0.derivatives)] != [tuple(d) for d in _names(s0.derivatives)] or \
+            sorted(map(tuple, _names(s0.derivatives))) != sorted(map(tuple, _names(s1.derivatives)))
+        if not args_differ and ties:
+            cls = "construction-order-derivative-ties"
+        else:
+            cls = "construction-order-derivative-" + ("arguments" if what == "arguments" or args_differ else "list")
+        mon.append({"cls": cls, "what": f"EstimationStep.create(derivatives={req}) and the same request given as "
+                    f"{inner if what == 'arguments' else outer if what == 'list' else both} are different steps: "
+                    f"{_names(s0.derivatives)} vs {_names(s1.derivatives)}"})
+    # Mon: through the modelling API, on this model (needs an estimation step last), incl. an add/remove detour
+    if len(m.execution_steps) and isinstance(m.execution_steps[-1], PM.EstimationStep) and len(rvnames) >= 2:
+        try:
+            ma = pm.add_derivative(m, [tuple(d) for d in req])
+            mb = pm.add_derivative(m, [tuple(d) for d in both])
+            extra = next((n for n in rvnames if [n] not in [sorted(x) for x in _names(ma.execution_steps[-1].derivatives)]), None)
+            mc = pm.remove_derivative(pm.add_derivative(ma, extra), extra) if extra is not None else None
+        except Exception as e:
+            tags.append("add-derivative-refused:" + type(e).__name__)
+            ma = None
+        if ma is not None:
+            tags.append("q:add-derivative")
+            ha = safe_hash(ma, mon, "model after add_derivative")
+            for what, mx in (("other order", mb), ("add/remove detour", mc)):
+                if mx is None:
+                    continue
+                da, dx = _names(ma.execution_steps[-1].derivatives), _names(mx.execution_steps[-1].derivatives)
+                same_request = _canon_repaired(da) == _canon_repaired(dx)
+                if not same_request:
+                    mon.append({"cls": "add-derivative-content", "what": f"add_derivative ({what}) requests {dx} instead of {da}"})
+                    continue
+                hx = safe_hash(mx, mon, "model after add_derivative (" + what + ")")
+                if not (mx == ma) or hx != ha:
+                    arg_order = [tuple(d) for d in da] != [tuple(sorted(d)) for d in da] or [tuple(d) for d in dx] != [tuple(sorted(d)) for d in dx]
+                    cls = "construction-order-derivative-arguments" if arg_order else \
+                        "construction-order-derivative-ties" if _has_ties(da) else "construction-order-derivative-list"
+                    mon.append({"cls": cls, "what": f"add_derivative, {what}: the same derivatives {sorted(map(tuple, da))} are held as {da} vs {dx}: "
+                                f"models equal: {mx == ma}, keys equal: {hx == ha}"})
+    # -- mapping-valued fields in another insertion order: equal objects must have equal keys
+    rev = lambda mp: dict(reversed(list(mp.items())))
+    try:
+        cands = []
+        if len(m.dependent_variables) > 1:
+            cands.append(("dependent_variables", m.replace(dependent_variables=rev(m.dependent_variables))))
+        if len(m.observation_transformation) > 1:
+            cands.append(("observation_transformation", m.replace(observation_transformation=rev(m.observation_transformation))))
+        for i, st in enumerate(m.execution_steps):
+            if len(st.tool_options) > 1:
+                st2 = st.replace(tool_options=rev(st.tool_options))
+                steps2 = list(m.execution_steps)
+                steps2[i] = st2
+                cands.append(("tool_options", m.replace(execution_steps=PM.ExecutionSteps(tuple(steps2)))))
+                break
+    except Exception as e:
+        cands = []
+        tags.append("mapping-order-refused:" + type(e).__name__)
+    for what, m2 in cands:
+        tags.append("mapping-order:" + what)
+        try:
+            eq = bool(m2 == m)
+        except Exception:
+            eq = False
+        if eq:
+            h2 = safe_hash(m2, mon, "model with " + what + " in another insertion order")
+            if h2 is not None and h2 != h0:
+                mon.append({"cls": "hash-noncanonical-mapping-order",
+                            "what": f"two == models whose {what} mapping was filled in a different order have different ModelHash "
+                                    "(to_dict / json.dumps keep insertion order)"})
+    # -- there-and-back detours through the modelling API
+    detours = []
+    pn = [p.name for p in m.parameters if not p.fix]
+    if pn:
+        detours.append(("fix/unfix", lambda: pm.unfix_parameters(pm.fix_parameters(m, [pn[0]]), [pn[0]])))
+        p0 = m.parameters[pn[0]]
+        mid = p0.init + 1.0 if p0.init + 1.0 <= p0.upper and p0.init + 1.0 != p0.init else None
+        if mid is not None:
+            detours.append(("set_initial_estimates", lambda: pm.set_initial_estimates(pm.set_initial_estimates(m, {pn[0]: mid}), {pn[0]: p0.init})))
+    detours.append(("add/remove estimation step", lambda: pm.remove_estimation_step(pm.add_estimation_step(m, "FO"), len(m.execution_steps))))
+    has_int = any(isinstance(x, int) and not isinstance(x, bool) for p in m.parameters for x in (p._init, p._lower, p._upper))
+    for what, mk in rng.sample(detours, min(2, len(detours))):
+        try:
+            m2 = mk()
+        except Exception as e:
+            tags.append("detour-refused:" + what + ":" + type(e).__name__)
+            continue
+        tags.append("detour:" + what)
+        h2 = safe_hash(m2, mon, "model after detour " + what)
+        if not (m2 == m):
+            mon.append({"cls": "detour-not-identity", "what": f"{what} there and back gives a different model"})
+        elif h2 is not None and h2 != h0:
+            # Parameter.replace goes through create(), which turns int-valued fields into floats: finding D6 by another route
+            if has_int and _float_params(norm_tl(m2.to_dict())) == _float_params(norm_tl(m.to_dict())):
+                mon.append({"cls": "hash-int-vs-float-parameter",
+                            "what": f"{what} there and back gives an == model with another ModelHash: int-valued parameter fields came back as floats"})
+            else:
+                mon.append({"cls": "detour-changes-key", "what": f"{what} there and back gives an == model with another ModelHash"})
 
 
 def run_procs_case(case):
